@@ -24,15 +24,9 @@ WF = """(
 # one model per evaluation chain: every cells on the stack belongs to the model of the bottom frame
 # (kept out of WF: modelx does not enforce it; stated where needed)
 
-# the graph an evaluation records into
-GWF = """(
-    all(implies(has_edge(g, a, b), has_node(g, a) and has_node(g, b)) for a in every('node') for b in every('node'))
-)"""
-
 
 def register(R, P):
     R.macro("WF", ["cs"], WF)
-    R.macro("GWF", ["g"], GWF)
     # caller of the frame on top AFTER a pop: nearest cached frame, if any
     R.macro("has_caller", ["cs"], "len(cs) > 0 and cs.idxstack[-1] >= 0")
     R.macro("caller", ["cs"], "cs[cs.idxstack[-1]]")
@@ -56,10 +50,11 @@ def register(R, P):
 
     R.contract(F + "::CallStack.pop",
         params={"self": "CallStack"}, returns="node",
-        requires=["WF(self)", "len(self) > 0", "GWF(self[-1][0].model.tracegraph)",
+        requires=["WF(self)", "len(self) > 0", "GWF(self[-1][0].model.tracegraph)", "RGWF(self[-1][0].model.refgraph)",
                   "self[-1][0].model.tracegraph is not self[-1][0].model.refgraph"],
         ensures=[
             "RES:: result == old(self[-1])",
+            "RGWF:: RGWF(result[0].model.refgraph)",
             "STACK:: seqof(self) == old(self[:-1])",
             "IDX:: seqof(self.idxstack) == old(self.idxstack[:-1])",
             "CNT:: self.counter == old(self.counter) - 1",
@@ -99,6 +94,7 @@ def register(R, P):
                 "all(implies(cells.is_cached or has_caller(self), has_edge(cells.model.refgraph, old(self.refstack[j][1]), node if cells.is_cached else caller(self)))"
                 " for j in range(len(self.refstack), old(len(self.refstack))))",
                 "cells is node[0] and node == old(self[-1])",
+                "RGWF(cells.model.refgraph)",
             ],
             "modifies": ["content(self.refstack)", "content(node[0].model.refgraph)"],
         }, 1: {
@@ -113,9 +109,10 @@ def register(R, P):
 
     R.contract(F + "::CallStack.rollback",
         params={"self": "CallStack"},
-        requires=["WF(self)", "len(self) > 0", "GWF(self[-1][0].model.tracegraph)",
+        requires=["WF(self)", "len(self) > 0", "GWF(self[-1][0].model.tracegraph)", "RGWF(self[-1][0].model.refgraph)",
                   "self[-1][0].model.tracegraph is not self[-1][0].model.refgraph"],
         ensures=[
+            "RGWF:: RGWF(old(self[-1])[0].model.refgraph)",
             "STACK:: seqof(self) == old(self[:-1])",
             "IDX:: seqof(self.idxstack) == old(self.idxstack[:-1])",
             "CNT:: self.counter == old(self.counter) - 1",
@@ -152,13 +149,6 @@ def register(R, P):
 def register_executor(R, P):
     M = "modelx/core/model.py"
     # ---- trusted / interface contracts used by the executor ------------------------------------------------
-    R.contract("extern::ReferenceGraph.remove_with_referred", trusted=True,
-        note="proved separately under C02 against modelx/core/model.py (same clauses)",
-        params={"self": "ReferenceGraph", "nodes": "seq[node]"},
-        ensures=["all(not has_node(self, nodes[i]) for i in range(len(nodes)))"],
-        modifies=["content(self)"])
-    R.contracts["ReferenceGraph.remove_with_referred"] = R.contracts.pop("ReferenceGraph.remove_with_referred")
-
     # Stable: what running user code (a formula) may do to the executor state — the rely contract (DESIGN 2.6).
     STABLE = [
         "WF:: WF(cs(self))",
@@ -169,6 +159,7 @@ def register_executor(R, P):
         "EXECUTING:: self.system.executor.is_executing == old(self.system.executor.is_executing)",
         "RUNS:: self.system.executor.ghost_runs > old(self.system.executor.ghost_runs)",
         "GWF:: GWF(self.model.tracegraph)",
+        "RGWF:: RGWF(self.model.refgraph)",
         "FLAGS:: all(c.is_cached == old(c.is_cached) for c in every('NodeObj'))",
     ]
     R.macro("cs", ["o"], "o.system.executor.callstack")
@@ -176,7 +167,7 @@ def register_executor(R, P):
         note="interface contract of CellsImpl.on_eval_formula / ItemSpaceParent.on_eval_formula: runs user code (rely contract "
              "Stable, assumption A-PURE); CellsImpl.on_eval_formula is proved to refine it under C01",
         params={"self": "NodeObj", "key": "key"}, returns="val",
-        requires=["WF(cs(self))", "len(cs(self)) > 0", "cs(self)[-1] == item(self, key)", "GWF(self.model.tracegraph)"],
+        requires=["WF(cs(self))", "len(cs(self)) > 0", "cs(self)[-1] == item(self, key)", "GWF(self.model.tracegraph)", "RGWF(self.model.refgraph)"],
         ensures=STABLE + [
             "STORED:: implies(self.is_cached, key in self.data and self.data[key] == result)",
         ],
@@ -192,7 +183,7 @@ def register_executor(R, P):
         ensures=["result == (key in self.data)"])
     R.contract("extern::ErrorStack.__init__", trusted=True,
         note="pairs traceback frames with rolled-back nodes (frame grammar assumption of C17); checked boundedly by drivers/c17.py",
-        params={"self": "ErrorStack", "execinfo": "tuple[type,BaseException,traceback]",
+        params={"self": "ErrorStack", "execinfo": "tuple[TypeObj,BaseException,TracebackObj]",
                 "rolledback": "deque[tuple[int,BaseException,node]]"},
         ensures=["len(rolledback) == 0"],
         modifies=["content(rolledback)"], alloc=True)
@@ -202,7 +193,7 @@ def register_executor(R, P):
     EX = "self.callstack"
     R.contract(F + "::NonThreadedExecutor._eval_formula",
         params={"self": "Executor", "node": "node"}, returns="val",
-        requires=["WF(self.callstack)", "is_item(node)", "GWF(node[0].model.tracegraph)", "self.is_executing",
+        requires=["WF(self.callstack)", "is_item(node)", "GWF(node[0].model.tracegraph)", "RGWF(node[0].model.refgraph)", "self.is_executing",
                   "node[0].system.executor is self", "node[0].model.tracegraph is not node[0].model.refgraph",
                   "self.callstack.executor is self"],
         ensures=[
@@ -215,22 +206,25 @@ def register_executor(R, P):
             "RECORDED:: implies(node[0].is_cached, has_node(node[0].model.tracegraph, node))"
             " and implies(has_caller(self.callstack), has_edge(node[0].model.tracegraph, node if node[0].is_cached else objnode(node[0]), caller(self.callstack)))",
             "NO-PENDING:: all(self.refstack[j][0] < self.callstack.counter for j in range(len(self.refstack)))",
-            "GWF:: GWF(node[0].model.tracegraph)",
+            "GWF:: GWF(node[0].model.tracegraph)", "RGWF:: RGWF(node[0].model.refgraph)",
         ],
         raises={
             # C05: append refused: nothing was pushed, only the caller's frame will unwind
             "DeepReferenceError": [
+                "LIMIT:: old(len(self.callstack)) > self.callstack.maxdepth",
                 "WF:: WF(self.callstack)",
                 "STACK:: unchanged(self.callstack, self.callstack.idxstack) and self.callstack.counter == old(self.callstack.counter)",
+                "UNCHANGED:: unchanged(self.refstack, self.rolledback, node[0].model.tracegraph, node[0].model.refgraph) and self.ghost_runs == old(self.ghost_runs)",
             ],
             # C05/C17: any exception of the formula: frame unwound, node out of the graph, same exception re-raised
             "*": [
                 "WF:: WF(self.callstack)",
                 "STACK:: unchanged(self.callstack, self.callstack.idxstack) and self.callstack.counter == old(self.callstack.counter)",
                 "NOT-IN-GRAPH:: not has_node(node[0].model.tracegraph, node)",
+                "RUNS:: self.ghost_runs > old(self.ghost_runs)",
                 "CHAIN:: len(self.rolledback) > 0 and self.rolledback[-1] == (self.callstack.counter, raised, node)",
                 "NO-PENDING:: all(self.refstack[j][0] < self.callstack.counter for j in range(len(self.refstack)))",
-                "GWF:: GWF(node[0].model.tracegraph)",
+                "GWF:: GWF(node[0].model.tracegraph)", "RGWF:: RGWF(node[0].model.refgraph)",
             ]},
         modifies=["every_content('dict[key,val]')", "every_content('set[key]')", "every_content('graph')",
                   "every_content('graph[rnode]')", "content(self.refstack)", "content(self.rolledback)", "self.ghost_runs",
@@ -238,3 +232,75 @@ def register_executor(R, P):
         alloc=True)
 
     P.setdefault("_system", {})["executor"] = ["NonThreadedExecutor._eval_formula"]
+
+
+def register_executor2(R, P):
+    # W5 — nothing is executing outside a top-level call
+    R.macro("IDLE", ["ex"], "len(ex.callstack) == 0 and len(ex.refstack) == 0")
+    EXREQ = ["WF(self.callstack)", "is_item(node)", "GWF(node[0].model.tracegraph)", "RGWF(node[0].model.refgraph)", "node[0].system.executor is self",
+             "node[0].model.tracegraph is not node[0].model.refgraph", "self.callstack.executor is self",
+             "implies(not self.is_executing, IDLE(self))"]
+    ANYEXC = [
+        "WF:: WF(self.callstack)",
+        "STACK:: unchanged(self.callstack, self.callstack.idxstack) and self.callstack.counter == old(self.callstack.counter)",
+        "EXECUTING:: self.is_executing == old(self.is_executing)",
+        "IDLE:: implies(not self.is_executing, IDLE(self))",
+        "NOT-IN-GRAPH:: implies(old(not (node[0].is_cached and node[1] in node[0].data)), not has_node(node[0].model.tracegraph, node))",
+    ]
+    R.contract(F + "::NonThreadedExecutor._start_exec",
+        params={"self": "Executor", "node": "node"}, returns="val",
+        requires=EXREQ + ["not self.is_executing"],
+        ensures=[
+            "WF:: WF(self.callstack)", "IDLE:: IDLE(self) and not self.is_executing",
+            "RUNS:: self.ghost_runs > old(self.ghost_runs)",
+            # the value returned is the buffer of THIS run
+            "STORED:: implies(node[0].is_cached and self.excinfo[0] is null, node[1] in node[0].data and node[0].data[node[1]] == result)",
+            "CLEAN:: implies(self.excinfo[0] is null, self.errorstack is null)",
+        ],
+        raises={
+            "FormulaError": ["WF:: WF(self.callstack)", "IDLE:: IDLE(self) and not self.is_executing",
+                             "CARRIES-ORIGINAL:: self.excinfo[1] is not null and self.errorstack is not null",
+                             "USED:: self.is_formula_error_used",
+                             "NOT-IN-GRAPH:: not has_node(node[0].model.tracegraph, node)"],
+            "*": ["WF:: WF(self.callstack)", "IDLE:: IDLE(self) and not self.is_executing",
+                  "ORIGINAL:: raised is self.excinfo[1] and not self.is_formula_error_used",
+                  "NOT-IN-GRAPH:: not has_node(node[0].model.tracegraph, node)"],
+        },
+        modifies=["every_content('dict[key,val]')", "every_content('set[key]')", "every_content('graph')",
+                  "every_content('graph[rnode]')", "content(self.refstack)", "content(self.rolledback)", "self.ghost_runs",
+                  "content(self.callstack)", "content(self.callstack.idxstack)", "self.callstack.counter",
+                  "self.excinfo", "self.errorstack", "self.is_executing", "self.buffer"],
+        alloc=True)
+
+    R.contract(F + "::NonThreadedExecutor.eval_node",
+        params={"self": "Executor", "node": "node"}, returns="val",
+        requires=EXREQ,
+        ensures=[
+            "WF:: WF(self.callstack)",
+            "STACK:: unchanged(self.callstack, self.callstack.idxstack) and self.callstack.counter == old(self.callstack.counter)",
+            "EXECUTING:: self.is_executing == old(self.is_executing)",
+            "IDLE:: implies(not self.is_executing, IDLE(self))",
+            # C01: a held value is returned as is, nothing runs, the cache is untouched
+            "HIT-VALUE:: implies(old(node[0].is_cached and node[1] in node[0].data), result == old(node[0].data[node[1]]))",
+            "HIT-NO-RUN:: implies(old(node[0].is_cached and node[1] in node[0].data), self.ghost_runs == old(self.ghost_runs))",
+            "HIT-CACHE-KEPT:: implies(old(node[0].is_cached and node[1] in node[0].data),"
+            " all(unchanged(c.data) for c in every('NodeObj')))",
+            # C08: a hit inside a formula records exactly the edge element -> nearest cached caller
+            "HIT-EDGE:: implies(old(node[0].is_cached and node[1] in node[0].data),"
+            " all(has_edge(node[0].model.tracegraph, a, b) == (old(has_edge(node[0].model.tracegraph, a, b))"
+            " or (has_caller(self.callstack) and a == node and b == caller(self.callstack)))"
+            " for a in every('node') for b in every('node')))",
+            # C01: a miss runs the formula (at least) once and the stored value is what is returned
+            "MISS-RUNS:: implies(old(not (node[0].is_cached and node[1] in node[0].data)), self.ghost_runs > old(self.ghost_runs))",
+            # (with handle_formula_error(True) a failed top-level call prints the error and returns None: excluded)
+            "MISS-STORED:: implies(old(not (node[0].is_cached and node[1] in node[0].data)) and node[0].is_cached"
+            " and (old(self.is_executing) or self.excinfo[0] is null),"
+            " node[1] in node[0].data and node[0].data[node[1]] == result)",
+        ],
+        raises={"FormulaError": ANYEXC, "DeepReferenceError": ANYEXC[:-1], "*": ANYEXC},
+        modifies=["every_content('dict[key,val]')", "every_content('set[key]')", "every_content('graph')",
+                  "every_content('graph[rnode]')", "content(self.refstack)", "content(self.rolledback)", "self.ghost_runs",
+                  "content(self.callstack)", "content(self.callstack.idxstack)", "self.callstack.counter",
+                  "self.excinfo", "self.errorstack", "self.is_executing", "self.buffer"],
+        alloc=True)
+    P["_system"]["executor"] += ["NonThreadedExecutor._start_exec", "NonThreadedExecutor.eval_node"]
